@@ -283,7 +283,8 @@ LimitsLeased(objs, svcsets) == BadLimits(objs, svcsets) = {}
 (* THE GENERATOR MODEL                                                                                         *)
 (* settings: [cpu, mem, sto: <<n, d>> commit level n/d; netpol; runtime; static; domain]                       *)
 (* service:  [name, np, pol, count, cpu, mem, sto, exposes: seq of [port, as, proto, global, hosts]]           *)
-(* lease:    [owner, dseq, gseq, oseq, provider]                                                               *)
+(* lease:    [owner, dseq, gseq, oseq, provider, ns]; dseq (uint64), gseq, oseq (uint32) are decimal STRINGS:  *)
+(*           TLC integers are 32 bit signed and the sequence numbers that matter sit at 2^16, 2^32, 2^63, 2^64 *)
 
 \* util.ComputeCommittedResources: round(v / level), at least 1; level <= 1 commits the full value
 Committed(v, lvl) ==
@@ -291,8 +292,8 @@ Committed(v, lvl) ==
   ELSE LET c == QDivRound(QMul(v, lvl[2]), lvl[1]) IN IF c = <<0, 0>> THEN <<0, 1>> ELSE c
 
 BaseLabels(ns) == {<<LManaged, "true">>, <<LNs, ns>>}
-LeaseLabels(ns, l) == BaseLabels(ns) \cup {<<LOwner, l.owner>>, <<LDSeq, ToString(l.dseq)>>, <<LGSeq, ToString(l.gseq)>>,
-                                           <<LOSeq, ToString(l.oseq)>>, <<LProv, l.provider>>}
+LeaseLabels(ns, l) == BaseLabels(ns) \cup {<<LOwner, l.owner>>, <<LDSeq, l.dseq>>, <<LGSeq, l.gseq>>,
+                                           <<LOSeq, l.oseq>>, <<LProv, l.provider>>}
 SvcLabels(ns, name) == BaseLabels(ns) \cup {<<LSvc, name>>}
 
 \* prepareEnvironment (apply.go): the provider's own namespace exists before any Deploy
